@@ -179,7 +179,8 @@ class Outcome:
         }
         if trusted:
             ev["coverage"]["trusted_base"] = trusted
-        if not self.replay:
+        if not self.replay and os.path.realpath(os.environ.get("VERIF_REPO", "/repo")) == "/repo":
+            # (a maintenance run against a scratch worktree -- a seeded change -- says nothing about /repo and leaves the evidence alone)
             write_json(os.path.join(EVIDENCE, self.prop + ".json"), ev)
         status = "FAIL" if self.violations else "ok"
         print("%s %s tier=%s seed=%d evaluations=%d nontrivial=%d states=%d traces=%d known=%d violations=%d wall=%.1fs" % (
